@@ -218,6 +218,20 @@ def build(rng, tier):
                 cases.append(engcheck.Case(u.pid, inst, engcheck.std_history(inst, u.pid, inp), meta))
     for i, (p, q, tags) in enumerate(sel):
         inputs = [sgen.gen_input(rng.fork(f"h{i}i{j}"), p) for j in range(4 if quick else 12)]
+        if "suffix-twice" in tags:
+            # the six-hop rule of the `vL` / `vL1` macro on a simple cycle (no self loops): if the two expansions share a local, the walk has to
+            # revisit a node it cannot revisit and the rule derives nothing (on dense random graphs the projection on the end points hides the loss)
+            for ru in p["rules"]:
+                if ru["body"] and ru["body"][0][0] == "mac" and ru["body"][0][2][0] == ("id", 64):
+                    hop = p["macros"][ru["body"][0][1]]["body"][0]
+                    r, tys = hop[1], S.rel_types(p, hop[1])
+                    ints = [j for j, t in enumerate(tys) if t == "int"][:2]
+                    for j in (0, 1):
+                        n = 7 + j
+                        def row(a, b):
+                            vals = {ints[0]: a, ints[1]: b}
+                            return tuple(vals[k] if k in vals else (0 if t == "int" else "none") for k, t in enumerate(tys))
+                        inputs[j] = dict(inputs[j]); inputs[j][r] = [row(a, (a + 1) % n) for a in range(n)]; inputs[j][ru["heads"][0][0]] = []
         add(f"h{i}", p, q, "general", inputs, bare=not f26_class(p))       # expression arguments without parentheses wherever grouping cannot matter
     nf25 = 0
     for i, (p, shape) in enumerate(f25_programs(rng.fork("f25"), 6 if quick else 12)):
